@@ -9,7 +9,14 @@
 //!  * ledger movement to live_until-1 / live_until / live_until+1 of every approval made,
 //!    to the storage TTL of the entry (live_until of an OLDER approval, now+min_temp-1) and
 //!    beyond it, and long jumps;
-//!  * spends of allowance, allowance+1, allowance-1, the whole balance, 0.
+//!  * spends of allowance, allowance+1, allowance-1, the whole balance, 0;
+//!  * "special" principals in the account universe (n=7 in the sequence labels): index 5 is
+//!    the token contract's OWN address (it can never sign: `mock_auths` would register a mock
+//!    account contract over the token, so 5 is filtered out of every signer set and an op
+//!    whose required signer is 5 must always be rejected), index 6 is another registered
+//!    contract (a second token instance) acting as an ordinary holder/spender; both are
+//!    minted to and named as from / owner / spender / to; owner == spender is generated
+//!    with extra weight.
 use ozharness::*;
 use soroban_sdk::{contract, contractimpl, Address, Env, IntoVal, MuxedAddress, String as SString, Val};
 
@@ -49,8 +56,19 @@ impl FungibleToken for Tok {
 #[contractimpl(contracttrait)]
 impl FungibleBurnable for Tok {}
 
-const N: usize = 5;
+/// plain generated accounts 0..NA
+const NA: usize = 5;
+/// the token contract's own address (never a signer)
+const SELF: usize = 5;
+/// another registered contract (a second instance of the harness token) as a holder
+const OTHER: usize = 6;
+/// size of the observed universe; printed as `n=7` in every sequence label
+const N: usize = 7;
 const MAX_TTL: u32 = 200_000;
+
+fn seq(t: &mut Trace, label: &str) {
+    t.seq(&format!("{} n={}", label, N));
+}
 
 #[derive(Clone, Copy, PartialEq, Debug)]
 enum Flavor {
@@ -77,7 +95,10 @@ impl Sim {
     fn new(min_temp: u32, start: u32) -> Sim {
         let e = new_env(start, min_temp, MAX_TTL);
         let tok = e.register(Tok, ());
-        let u = Universe::new(&e, N);
+        let mut u = Universe::new(&e, NA);
+        assert_eq!(u.push(tok.clone()), SELF);
+        let other = e.register(Tok, ());
+        assert_eq!(u.push(other), OTHER);
         Sim { e, u, tok, now: start, min_temp, flavor: Flavor::Base, mint_auth: None }
     }
     /// One of the example contracts with all its gates open (everybody allowed, nobody
@@ -85,7 +106,7 @@ impl Sim {
     /// Returns the initial supply minted by the constructor to account 0.
     fn new_flavor(t: &mut Trace, flavor: Flavor, min_temp: u32, start: u32, initial: i128) -> Sim {
         let e = new_env(start, min_temp, MAX_TTL);
-        let u = Universe::new(&e, N);
+        let mut u = Universe::new(&e, NA);
         let name = SString::from_str(&e, "T");
         let sym = SString::from_str(&e, "T");
         let a0 = u.a(0).clone();
@@ -104,6 +125,9 @@ impl Sim {
             Flavor::Capped => e.register(ex_capped::ExampleContract, (i128::MAX,)),
             Flavor::Base => e.register(Tok, ()),
         };
+        assert_eq!(u.push(tok.clone()), SELF);
+        let other = e.register(Tok, ());
+        assert_eq!(u.push(other), OTHER);
         let mut s = Sim { e, u, tok, now: start, min_temp, flavor, mint_auth };
         if flavor == Flavor::AllowList {
             for i in 0..N {
@@ -177,6 +201,10 @@ impl Sim {
     }
     /// run one op line, return the observation
     fn exec(&mut self, t: &mut Trace, kind: &str, a: &[usize], amount: i128, lu: u32, auth: &[usize]) {
+        // the token's own address can never be among the signers (mock_auths would replace
+        // the token contract by a mock account contract)
+        let auth: Vec<usize> = auth.iter().copied().filter(|x| *x != SELF).collect();
+        let auth = &auth[..];
         let e = &self.e;
         let ad = |i: usize| -> Val { self.u.a(i).into_val(e) };
         let (func, argv): (&str, soroban_sdk::Vec<Val>) = match kind {
@@ -333,7 +361,7 @@ fn gen_auth(rng: &mut Rng, kind: &str, a: &[usize], auth_focus: bool, mint_auth:
 
 fn scenario_directed(t: &mut Trace) {
     // hand-written regression histories; run first on every invocation
-    t.seq("directed self-transfer, zero, overflow boundary, expiry min_temp=1 start=100");
+    seq(t, "directed self-transfer, zero, overflow boundary, expiry min_temp=1 start=100");
     let mut s = Sim::new(1, 100);
     s.exec(t, "mint", &[0], 1000, 0, &[]);
     s.exec(t, "transfer", &[0, 0], 1000, 0, &[0]);
@@ -360,7 +388,7 @@ fn scenario_directed(t: &mut Trace) {
     s.exec(t, "approve", &[0, 4], 5, 111 + MAX_TTL - 2, &[0]);
     s.exec(t, "approve", &[0, 4], -1, 500, &[0]);
     // replaced by a shorter-lived approval: the storage entry outlives it
-    t.seq("directed allowance replaced by shorter-lived one min_temp=16 start=100");
+    seq(t, "directed allowance replaced by shorter-lived one min_temp=16 start=100");
     let mut s = Sim::new(16, 100);
     s.exec(t, "mint", &[0], 1000, 0, &[]);
     s.exec(t, "approve", &[0, 1], 500, 5000, &[0]);
@@ -373,6 +401,63 @@ fn scenario_directed(t: &mut Trace) {
     s.exec(t, "transfer_from", &[1, 0, 2], 7, 0, &[1]);
     s.exec(t, "transfer_from", &[1, 0, 2], 1, 0, &[1]);
     scenario_c02(t);
+    scenario_special(t);
+}
+
+/// "special" principals: the token contract's own address as holder / owner / spender / to,
+/// another registered contract as holder, owner == spender
+fn scenario_special(t: &mut Trace) {
+    for &min_temp in &[1u32, 16] {
+        seq(t, &format!("directed tokens held at the token contract's own address min_temp={} start=100", min_temp));
+        let mut s = Sim::new(min_temp, 100);
+        s.exec(t, "mint", &[SELF], 1000, 0, &[]);
+        s.exec(t, "mint", &[0], 1000, 0, &[]);
+        s.exec(t, "transfer", &[0, SELF], 100, 0, &[0]); // sent to the contract by mistake
+        let signer_sets: Vec<Vec<usize>> = vec![vec![], vec![0], vec![1], vec![0, 1], vec![OTHER], (0..NA).collect(), vec![0, 1, 2, 3, 4, OTHER]];
+        for (kind, a, amt, lu) in [
+            ("transfer", vec![SELF, 1], 10i128, 0u32),
+            ("transfer", vec![SELF, SELF], 10, 0),
+            ("transfer", vec![SELF, 1], 0, 0),
+            ("burn", vec![SELF], 10, 0),
+            ("approve", vec![SELF, 1], 500, 150),
+            ("approve", vec![SELF, SELF], 500, 150),
+            ("approve", vec![SELF, 1], 0, 150),
+            ("transfer_from", vec![1, SELF, 2], 10, 0),
+            ("burn_from", vec![1, SELF], 10, 0),
+            ("transfer_from", vec![SELF, SELF, 2], 10, 0),
+        ] {
+            for sub in &signer_sets {
+                s.exec(t, kind, &a, amt, lu, sub);
+            }
+        }
+        // the contract's address as spender of somebody else's allowance: it cannot sign
+        s.exec(t, "approve", &[0, SELF], 300, 150, &[0]);
+        for sub in &signer_sets {
+            s.exec(t, "transfer_from", &[SELF, 0, 2], 10, 0, sub);
+            s.exec(t, "burn_from", &[SELF, 0], 10, 0, sub);
+        }
+        s.advance(t, 51);
+        s.exec(t, "transfer", &[SELF, 1], 10, 0, &[]);
+        s.exec(t, "transfer_from", &[SELF, 0, 2], 10, 0, &[0]);
+        seq(t, &format!("directed another contract as holder, owner == spender min_temp={} start=100", min_temp));
+        let mut s = Sim::new(min_temp, 100);
+        s.exec(t, "mint", &[OTHER], 1000, 0, &[]);
+        s.exec(t, "mint", &[2], 1000, 0, &[]);
+        for sub in &signer_sets {
+            s.exec(t, "transfer", &[OTHER, 1], 10, 0, sub);
+            s.exec(t, "burn", &[OTHER], 10, 0, sub);
+            s.exec(t, "approve", &[OTHER, 1], 100, 150, sub);
+            s.exec(t, "approve", &[OTHER, OTHER], 100, 150, sub);
+            s.exec(t, "transfer_from", &[1, OTHER, 2], 10, 0, sub);
+            s.exec(t, "burn_from", &[OTHER, OTHER], 10, 0, sub);
+            s.exec(t, "approve", &[2, 2], 100, 150, sub);
+            s.exec(t, "transfer_from", &[2, 2, OTHER], 10, 0, sub);
+            s.exec(t, "burn_from", &[2, 2], 10, 0, sub);
+        }
+        s.advance(t, 51);
+        s.exec(t, "transfer_from", &[2, 2, OTHER], 10, 0, &[2]);
+        s.exec(t, "transfer_from", &[1, OTHER, 2], 10, 0, &[1]);
+    }
 }
 
 /// every subset of `universe` as a signer set
@@ -412,12 +497,12 @@ fn probe_insufficient(s: &mut Sim, t: &mut Trace, kind: &str, a: &[usize], amoun
 fn scenario_c02(t: &mut Trace) {
     for &min_temp in &[1u32, 16] {
         // every entry point under every signer subset of the whole universe
-        t.seq(&format!("directed every entry point x every signer subset min_temp={} start=100", min_temp));
+        seq(t, &format!("directed every entry point x every signer subset min_temp={} start=100", min_temp));
         let mut s = Sim::new(min_temp, 100);
         s.exec(t, "mint", &[0], 1000, 0, &[]);
         s.exec(t, "mint", &[1], 1000, 0, &[]);
         s.exec(t, "approve", &[0, 1], 600, 150, &[0]);
-        let all: Vec<usize> = (0..N).collect();
+        let all: Vec<usize> = (0..NA).collect();
         for (kind, a, amt, lu) in [
             ("transfer", vec![0usize, 2], 3i128, 0u32),
             ("burn", vec![0], 3, 0),
@@ -430,7 +515,7 @@ fn scenario_c02(t: &mut Trace) {
             }
         }
         // expiry boundary of an allowance, with the storage entry dying at / after it
-        t.seq(&format!("directed expiry boundary and storage ttl min_temp={} start=100", min_temp));
+        seq(t, &format!("directed expiry boundary and storage ttl min_temp={} start=100", min_temp));
         let mut s = Sim::new(min_temp, 100);
         s.exec(t, "mint", &[0], 1000, 0, &[]);
         s.exec(t, "approve", &[0, 1], 100, 100, &[0]); // live_until == now
@@ -459,7 +544,7 @@ fn scenario_c02(t: &mut Trace) {
         s.exec(t, "transfer_from", &[2, 0, 2], 900, 0, &[2]);
         // long-lived approval replaced by a short one, by an expired-at-once zero, moved past
         // both the allowance expiry and the storage entry's lifetime, then approved afresh
-        t.seq(&format!("directed replaced approvals and dead storage entries min_temp={} start=5000", min_temp));
+        seq(t, &format!("directed replaced approvals and dead storage entries min_temp={} start=5000", min_temp));
         let mut s = Sim::new(min_temp, 5000);
         s.exec(t, "mint", &[3], 500, 0, &[]);
         s.exec(t, "approve", &[3, 4], 400, 5100, &[3]);
@@ -516,7 +601,7 @@ fn main() {
         } else {
             Flavor::Base
         };
-        t.seq(&format!("rand k={} seed={} min_temp={} start={} flavor={:?}", k, seed, min_temp, start, flavor));
+        seq(&mut t, &format!("rand k={} seed={} min_temp={} start={} flavor={:?}", k, seed, min_temp, start, flavor));
         let mut s = if flavor == Flavor::Base {
             Sim::new(min_temp, start)
         } else {
@@ -588,11 +673,13 @@ fn main() {
                 }
                 "transfer_from" => {
                     let (f, sp) = if !pairs.is_empty() && rng.chance(75) { *rng.pick(&pairs) } else { (p(&mut rng), p(&mut rng)) };
+                    let sp = if rng.chance(8) { f } else { sp };
                     let to = if rng.chance(10) { f } else { p(&mut rng) };
                     (vec![sp, f, to], pick_spend(&mut rng, &s, f, sp), 0)
                 }
                 "approve" => {
                     let (o, sp) = if !pairs.is_empty() && rng.chance(45) { *rng.pick(&pairs) } else { (p(&mut rng), p(&mut rng)) };
+                    let sp = if rng.chance(8) { o } else { sp };
                     let maxl = s.now + MAX_TTL - 1;
                     let lu = match rng.below(16) {
                         0 => 0,
@@ -627,6 +714,7 @@ fn main() {
                 }
                 _ => {
                     let (f, sp) = if !pairs.is_empty() && rng.chance(75) { *rng.pick(&pairs) } else { (p(&mut rng), p(&mut rng)) };
+                    let sp = if rng.chance(8) { f } else { sp };
                     (vec![sp, f], pick_spend(&mut rng, &s, f, sp), 0)
                 }
             };
